@@ -226,9 +226,22 @@ def cause_of(cfg, key, info):
     return ""
 
 
+_FRESH = {}
+
+
+def fresh_for(cfg):
+    """fresh-instance values are shared by all histories with the same inputs and physical options"""
+    key = repr(sorted((k, v) for k, v in cfg.items() if k not in ("period", "thr_scalars")))
+    if key not in _FRESH:
+        if len(_FRESH) > 12:
+            _FRESH.clear()
+        _FRESH[key] = Fresh(cfg)
+    return _FRESH[key]
+
+
 def oracle_history(ctx, cfg, ops, tag, stats, info=None):
     """run the history on the real code, compare every value with a fresh instance"""
-    fresh = Fresh(cfg)
+    fresh = fresh_for(cfg)
     found = [0]
 
     def on_value(i, key, v, rel):
@@ -272,7 +285,7 @@ def oracle_history(ctx, cfg, ops, tag, stats, info=None):
                 {"kind": "history", "cfg": cfg, "ops": ops[: i + 1], "key": key, "difference": d},
                 {"site": "value", "cause": cause_of(cfg, key, info), "key": key, "inputs": cfg["inputs"]})
 
-    rel, fails = C03.execute(cfg, ops, on_value=on_value)
+    rel, fails = C03.execute(cfg, ops, on_value=on_value, watch_values=True)
     for f in fails:
         # exceptions in the history that a fresh instance does not raise
         what = str(f[0])
@@ -358,6 +371,54 @@ def targeted(info, rng, keys):
     return out
 
 
+def direct_reads(info):
+    deps = {}
+    for k, sh in info["shapes"].items():
+        d = []
+        depgraph.walk_shape(sh, [], lambda r, g, d=d: (None if r in d else d.append(r)),
+                            lambda p, g, d=d: (None if p in d else d.append(p)))
+        deps[k] = [x for x in d if x in info["shapes"]]
+    return deps
+
+
+# cache settings under which a fault in a cached entry is NOT healed by eviction
+GENTLE = ({"period": 20, "thr_scalars": 10 ** 6}, {"period": 10 ** 6, "thr_scalars": 10 ** 9})
+# families of inputs / physical options for the dependency histories
+FAMILIES = (
+    {"inputs": "tensors", "vacuum": False, "Lambda": 0.3},      # fluid: rho0, eps, press, velocity
+    {"inputs": "fluid_T", "vacuum": False, "Lambda": 0.3},      # energy-stress tensor supplied
+    {"inputs": "vacuumlike", "vacuum": True, "Lambda": 0.0},
+    {"inputs": "tensors", "vacuum": False, "Lambda": 0.0},
+)
+
+
+def dependency_histories(info, rng, nkeys, nconsumers=10):
+    """For each key K of a sample: request K first, then re-request everything K reads
+    and the consumers of what K reads (from the generated DepGraph): a value K's
+    computation left behind in the cache (stale, aliased, modified in place) is then
+    compared with a fresh instance, directly and through its consumers."""
+    deps = direct_reads(info)
+    cons = {}
+    for k, d in deps.items():
+        for x in d:
+            cons.setdefault(x, []).append(k)
+    big = sorted((k for k in deps if len(deps[k]) >= 3), key=lambda k: -info["rank"][k])
+    always = [k for k in ("st_Riemann_down4", "Kretschmann", "st_Weyl_down4", "st_Ricci_down4", "Weyl_Psi") if k in deps]
+    pool = [k for k in big if k not in always]
+    sample = always + rng.sample(pool, min(len(pool), max(0, nkeys - len(always))))
+    out = []
+    for K in sample:
+        cs = []
+        for x in deps[K]:
+            for c in cons.get(x, []):
+                if c != K and c not in cs:
+                    cs.append(c)
+        rng.shuffle(cs)
+        ops = [["get", K]] + [["get", x] for x in deps[K]] + [["get", c] for c in cs[:nconsumers]] + [["get", K]]
+        out.append((K, ops))
+    return out
+
+
 def search(ctx, info, nhist, nreq):
     keys = C03.description_keys()
     stats = dict.fromkeys(("compared", "same_alternatives", "algebraic_alternatives",
@@ -400,8 +461,30 @@ def search(ctx, info, nhist, nreq):
         rel, n = oracle_history(ctx, cfg, ops, "guard of " + k, stats, info)
         found += n
         runs.append((cfg, ops, rel))
+    # dependency histories under gentle cache settings (aggressive eviction heals faults in cached entries)
+    dh = dependency_histories(info, ctx.rng, ctx.budget(14, 60))
+    ctx.cov["dependency_histories"] = 0
+    nalways = 5
+    for j, (K, ops) in enumerate(dh):
+        if ctx.tier == "thorough" or j < nalways:
+            # the big curvature keys: every matter family under BOTH gentle settings (with period 20 the
+            # clean-up at count 20 already evicts most of what a 21-calculation request leaves behind)
+            combos = [(f, g) for f in FAMILIES[:3] for g in GENTLE]
+        else:
+            combos = [(FAMILIES[j % 2], GENTLE[1]), (FAMILIES[2 + j % 2], GENTLE[0])]
+        for fam, gentle in combos:
+            cfg = dict(base, **fam)
+            cfg.update(gentle)
+            if ctx.tier == "thorough":
+                cfg["order"] = ctx.rng.choice((2, 4))
+            rel, n = oracle_history(ctx, cfg, ops, "dependencies of " + K, stats, info)
+            found += n
+            runs.append((cfg, ops, rel))
+            ctx.cov["dependency_histories"] += 1
     for h in range(nhist):
         cfg = C03.gen_config(ctx.rng, ctx.tier)
+        if ctx.rng.random() < 0.3:       # also random histories under gentle settings
+            cfg.update(ctx.rng.choice(GENTLE))
         inputs = C03.input_keys(cfg)
         ops = gen_ops(ctx.rng, ctx.rng.randrange(nreq // 2, nreq + 1), keys, inputs)
         rel, n = oracle_history(ctx, cfg, ops, "random history %d" % h, stats, info)
@@ -439,7 +522,9 @@ def run(ctx):
         "only on solutions of Einstein's equations (st_Ricci_down4, st_Ricci_down3, st_Weyl_down4, Weyl_Psi with Psi4 "
         "given) are compared on the exact solutions shipped with aurel (Collins_Stewart, Non_diagonal, "
         "Rosquist_Jantzen at t = 1.5) within a band of 10 x the change of the fresh value under one grid refinement, and "
-        "are not compared on the generic (non-solution) hand-made fields" % ALG_RTOL]
+        "are not compared on the generic (non-solution) hand-made fields" % ALG_RTOL,
+        "after every request every entry still cached is re-hashed: an entry modified in place is reported (explains a "
+        "history dependence; overlaps with C02)"]
     info = None
     try:
         changed, info = depgraph.regen()
